@@ -99,6 +99,10 @@ pub enum Item {
     Bidir([Field; 2]),
     /// 0 = left, 1 = right
     Stick(u8),
+    /// `Cardinal::wasd_keys()`
+    Wasd,
+    /// `Cardinal::dpad_buttons()`
+    Dpad,
 }
 
 /// The lines from one `act <a>` line up to the next `act`/`ctx`/first op.
@@ -284,6 +288,8 @@ fn parse_preset(t: &[&str]) -> Option<Item> {
     Some(match t {
         ["cardinal", n, e, s, w] => Item::Cardinal([field(n)?, field(e)?, field(s)?, field(w)?]),
         ["bidir", p, n] => Item::Bidir([field(p)?, field(n)?]),
+        ["wasd"] => Item::Wasd,
+        ["dpad"] => Item::Dpad,
         ["stick", "0"] => Item::Stick(0),
         ["stick", "1"] => Item::Stick(1),
         _ => return None,
